@@ -90,6 +90,7 @@ type Interp struct {
 	Overflow bool
 	Inline   func(callee types.Object) bool
 	NoReturn func(callee types.Object) bool
+	NoLin    bool // keep + - * as binary terms (operand order matters to the rule)
 	depth    int
 	fnStack  []*ast.FuncType
 }
@@ -829,6 +830,19 @@ func (in *Interp) eval0(st *State, e ast.Expr) *T {
 		if x.Max != nil {
 			args = append(args, in.eval(st, x.Max))
 		}
+		if base.Op == "str" && len(args) == 3 {
+			lo, hi := int64(0), int64(len(base.Name))
+			ok := true
+			if args[1] != nil {
+				lo, ok = toLin(args[1]).isConst()
+			}
+			if args[2] != nil && ok {
+				hi, ok = toLin(args[2]).isConst()
+			}
+			if ok && lo >= 0 && hi <= int64(len(base.Name)) && lo <= hi {
+				return tStr(base.Name[lo:hi])
+			}
+		}
 		return &T{Op: "slice", Args: args}
 	case *ast.StarExpr:
 		b := in.eval(st, x.X)
@@ -853,7 +867,7 @@ func (in *Interp) eval0(st *State, e ast.Expr) *T {
 		}
 		switch x.Op {
 		case token.SUB:
-			if isIntegerType(in.C.TypeOf(e)) {
+			if isIntegerType(in.C.TypeOf(e)) && !in.NoLin {
 				return linOfShallow(a).scale(-1).term()
 			}
 		case token.ADD:
@@ -921,7 +935,7 @@ func isIntegerType(t types.Type) bool {
 func linOfShallow(t *T) *linForm { return toLin(t) }
 
 func (in *Interp) binop(op string, a, b *T, operandType types.Type) *T {
-	if isIntegerType(operandType) && !isNamedConstType(operandType) {
+	if isIntegerType(operandType) && !isNamedConstType(operandType) && !in.NoLin {
 		switch op {
 		case "+":
 			return toLin(a).add(toLin(b), 1).term()
